@@ -308,17 +308,36 @@ def check_meaning(ctx, R):
                 problems.setdefault('the expected checksum (%s) does not come from an HTTP response' % show(o)[:80], 1)
             elif not any(want in x[3:] for x in resp):
                 problems.setdefault("the checksum is fetched from %s, not from url + '.md5'" % show(resp[0])[:80], 1)
-            elif not (is_t(o) and o[1] == 'index' and o[3] == C(0) and is_t(o[2]) and o[2][1] == 'call' and 'split' in o[2][2]):
-                problems.setdefault('the expected checksum is not the first token of the fetched text (%s)' % show(o)[:90], 1)
+            else:
+                # first token: text.split(..)[0] / text.split()[0] / text.partition(' ')[0] (also through tuple unpacking: item(.., 0))
+                def first_token(o_):
+                    if is_t(o_) and o_[1] in ('index', 'item') and o_[3] == C(0) and is_t(o_[2]) and o_[2][1] == 'call' and any(m_ in o_[2][2] for m_ in ('.split', '.partition')):
+                        return True
+                    return False
+
+                def other_token(o_):
+                    if is_t(o_) and o_[1] in ('index', 'item') and is_c(o_[3]) and o_[3] != C(0) and is_t(o_[2]) and o_[2][1] == 'call' and any(m_ in o_[2][2] for m_ in ('.split', '.partition', '.rsplit', '.rpartition')):
+                        return True
+                    return is_t(o_) and o_[1] in ('index', 'item') and o_[3] == C(0) and is_t(o_[2]) and o_[2][1] == 'call' and any(m_ in o_[2][2] for m_ in ('.rsplit', '.rpartition'))
+                if first_token(o):
+                    pass
+                elif other_token(o) or (is_t(o) and o[1] in ('response', 'attr')) or (is_t(o) and o[1] == 'call' and any(m_ in o[2] for m_ in ('.strip', '.lower', '.upper'))):
+                    problems.setdefault('the expected checksum is not the first token of the fetched text (%s)' % show(o)[:90], 1)
+                else:
+                    problems.setdefault('UNDECIDED how the expected checksum is cut out of the fetched text was not recognised (%s)' % show(o)[:70], 1)
         elif res is None:
             if cur:
                 problems.setdefault('the check returns None although a hash comparison was made: a mismatch can be reported as "unknown"', 1)
         else:
             problems.setdefault('the check returns %s, which is neither True, False nor None' % show(val)[:60], 1)
+    und_ = [m_ for m_ in problems if m_.startswith('UNDECIDED ')]
+    for m_ in und_:
+        problems.pop(m_)
+        ctx.undecided('C20.T1', chk, m_[10:])
     if problems:
         for msg in problems:
             ctx.violated('C20.T1', chk, msg, msg)
-    else:
+    elif not und_:
         ctx.holds('C20.T1', chk, 'check result True <=> md5(path argument) == first token of text(url argument + ".md5"), False <=> unequal, '
                   'None <=> no comparison possible (%d paths of the check, results %s, escaping exceptions %s)' %
                   (len(outs), sorted(map(str, results)), sorted(raises) or 'none'), chk.node.name)
